@@ -7,6 +7,6 @@ mkdir -p .work/bin evidence replays
 cp /repo/go.sum mc/go.sum
 (cd mc && go build -o ../.work/bin/mc ./cmd/mc) || exit 1
 mkdir -p .work/overlay
-(cd mc && go run ./cmd/rewrite -repo /repo -out "$PWD/../.work/overlay" -shims "$PWD/shims" >/dev/null && go build -overlay="$PWD/../.work/overlay/overlay.json" -o ../.work/bin/mcfs ./cmd/mcfs) || exit 1
+(cd mc && go run ./cmd/rewrite -repo /repo -out "$PWD/../.work/overlay" -shims "$PWD/shims" >/dev/null && go build -overlay="$PWD/../.work/overlay/overlay.json" -o ../.work/bin/mcfs ./cmd/mcfs && go build -race -overlay="$PWD/../.work/overlay/overlay.json" -o ../.work/bin/mcrace ./cmd/mcfs) || exit 1
 tools/build_typed.sh quick >/dev/null 2>&1 || { echo "typed build failed" >&2; exit 1; }
 echo setup ok
